@@ -574,3 +574,43 @@ func (it *smapIter) next() tuple {
 	}
 	return tuple{false, nil, nil}
 }
+
+
+// orderByGlobalRank sorts map entries with string keys by one global,
+// nondeterministically chosen order of the keys (mode "maporder 2":
+// every range over any map sees the keys in the same relative order; n!
+// orders in total instead of n! per range statement).
+func (i *interpreter) orderByGlobalRank(es []*mapEntry) {
+	p := i.p
+	for _, e := range es {
+		k, ok := e.key.(string)
+		if !ok {
+			return // only string-keyed maps take part
+		}
+		found := false
+		for _, r := range p.keyOrder {
+			if r == k {
+				found = true
+			}
+		}
+		if !found {
+			pos := p.choose(len(p.keyOrder)+1, nil, "global map order")
+			p.keyOrder = append(p.keyOrder, "")
+			copy(p.keyOrder[pos+1:], p.keyOrder[pos:])
+			p.keyOrder[pos] = k
+		}
+	}
+	rank := func(k string) int {
+		for n, r := range p.keyOrder {
+			if r == k {
+				return n
+			}
+		}
+		return -1
+	}
+	for a := 1; a < len(es); a++ {
+		for b := a; b > 0 && rank(es[b].key.(string)) < rank(es[b-1].key.(string)); b-- {
+			es[b], es[b-1] = es[b-1], es[b]
+		}
+	}
+}
